@@ -342,6 +342,11 @@ func modelIsPubkeyish(script []byte) bool { return model.IsPubkeyOrMultisig(scri
 // only the set of spendable outpoints (the statement's "spend outputs which
 // became relevant"), so L never demands more than the statement.
 func (s *c10) exactClosure(txs []*wire.MsgTx, flags uint8) (map[int]bool, int) {
+	return exactClosure(s.items, txs, flags)
+}
+
+// exactClosure is shared with the concurrent block-scan runs of C20.
+func exactClosure(items map[string]bool, txs []*wire.MsgTx, flags uint8) (map[int]bool, int) {
 	views := make([]*model.TxView, len(txs))
 	for i, t := range txs {
 		views[i] = model.ViewOf(t)
@@ -353,7 +358,7 @@ func (s *c10) exactClosure(txs []*wire.MsgTx, flags uint8) (map[int]bool, int) {
 		changed = false
 		rounds++
 		for i, v := range views {
-			rel := s.items[string(v.TxID[:])]
+			rel := items[string(v.TxID[:])]
 			var upd []int
 			for k, sc := range v.Outputs {
 				ps, ok := model.Pushes(sc)
@@ -361,7 +366,7 @@ func (s *c10) exactClosure(txs []*wire.MsgTx, flags uint8) (map[int]bool, int) {
 					continue
 				}
 				for _, p := range ps {
-					if s.items[string(p)] {
+					if items[string(p)] {
 						rel = true
 						if flags == model.UpdateAll || flags == model.UpdateP2PubkeyOnly && model.IsPubkeyOrMultisig(sc) {
 							upd = append(upd, k)
@@ -373,13 +378,13 @@ func (s *c10) exactClosure(txs []*wire.MsgTx, flags uint8) (map[int]bool, int) {
 			if !rel {
 				for _, in := range v.Inputs {
 					op := string(model.OutPointBytes(in.PrevHash, in.PrevIndex))
-					if s.items[op] || outs[op] {
+					if items[op] || outs[op] {
 						rel = true
 						break
 					}
 					if ps, ok := model.Pushes(in.SigScript); ok {
 						for _, p := range ps {
-							if s.items[string(p)] {
+							if items[string(p)] {
 								rel = true
 							}
 						}
